@@ -166,6 +166,9 @@ func (d *drvInst) send(ttl int) {
 	ok := err == nil
 	d.w.put(L(sxInt(7), d.cfg.sx(), sends0, L(sxInt(0), sxInt(int64(ttl)), sxInt(int64(at)), sxInt(int64(rnd)))), L(sxBool(ok), sxBytes(pkt)))
 	d.tags["send"]++
+	if off := map[bool]int{false: 26, true: 46}[d.cfg.v6]; ok && d.cfg.variant == vUdp && len(pkt) >= off+2 && pkt[off] == 0xff && pkt[off+1] == 0xff {
+		d.tags["udp_checksum_computed_zero_sent_as_ffff"]++
+	}
 	// the driver remembers the probe as soon as SendProbe stored it, even if the write failed
 	if ok {
 		d.sends = append(d.sends, sendRecD{ttl, at, rnd, pkt})
@@ -470,6 +473,10 @@ func drvConfigs(r *rng, thorough bool) []drvCfg {
 				u := drvCfg{variant: vUdp, v6: v6, first: rg[0], last: rg[1], local: c.local, target: c.target, sport: pick(r, []int{1, 65535, 40000 + r.intn(20000)}), dport: pick(r, []int{33434, 1, 65535, 53}), loosen: lo}
 				out = append(out, u)
 			}
+			// a source port for which the UDP checksum of one of the probes computes to zero: the wire form is 0xffff
+			z := drvCfg{variant: vUdp, v6: v6, first: 1, last: 6, local: c.local, target: c.target, dport: pick(r, []int{33434, 53, 65535})}
+			z.sport = zeroCkSport(z, 1+r.intn(4))
+			out = append(out, z)
 		}
 		for _, paris := range []bool{false, true} {
 			for _, lo := range []bool{false, true} {
@@ -485,6 +492,35 @@ func drvConfigs(r *rng, thorough bool) []drvCfg {
 		}
 	}
 	return out
+}
+
+// zeroCkSport returns the source port for which the UDP checksum of the probe for ttl computes to zero, from the
+// packet layout alone (no gopacket): pseudo-header, ports, length and payload sum to a multiple of 0xffff.
+func zeroCkSport(c drvCfg, ttl int) int {
+	var payload []byte
+	if c.v6 {
+		for len(payload) < 5+ttl {
+			payload = append(payload, "NSMNC"[len(payload)%5])
+		}
+	} else {
+		id := uint16(41821 + ttl)
+		payload = []byte{'N', 'S', 'M', 'N', 'C', 0, byte(id >> 8), byte(id)}
+	}
+	l := 8 + len(payload)
+	var s uint32
+	if c.v6 {
+		var a, b [16]byte
+		copy(a[:], c.local)
+		copy(b[:], c.target)
+		s = pseudo6(a, b, l, 17)
+	} else {
+		var a, b [4]byte
+		copy(a[:], c.local)
+		copy(b[:], c.target)
+		s = pseudo4(a, b, l, 17)
+	}
+	s = onesSum(payload, s+uint32(c.dport)+uint32(l))
+	return 65535 - int(s%65535)
 }
 
 // synack builds the handshake SYN-ACK the target sends for this configuration.
